@@ -509,3 +509,123 @@ func famLeaseIso(t *testing.T, seed int64, steps int) *Cluster {
 	c.converge(600 * time.Millisecond)
 	return c
 }
+
+// famStalePrefix stages the history behind the C02 anchor "log store content below an installed snapshot":
+// a deposed leader A leaves the never-committed entries x4,x5 on voter B and x4 on non-voter F; the rest of the
+// cluster moves on, snapshots and compacts; B is caught up by InstallSnapshot (a gap-tolerant store keeps x4,x5
+// below the snapshot), becomes leader and replicates to F from its log.
+func famStalePrefix(t *testing.T, seed int64, steps int) *Cluster {
+	opt := DefaultOptions(seed)
+	opt.Family = "staleprefix"
+	opt.Servers = []string{"n1", "n2", "n3", "n4", "n5", "n6"}
+	opt.Initial = map[string]string{"n1": "V", "n2": "V", "n3": "V", "n4": "V", "n5": "V", "n6": "N"}
+	opt.MaxAppend = 1 + int(seed%2)
+	opt.Trailing = 2 + uint64(seed%2)
+	opt.SnapThresh = 1000
+	c := NewCluster(t, opt)
+	c.Bootstrap()
+	c.StartAll()
+	A := c.WaitLeader(2 * time.Second)
+	if A == "" || A == "n6" {
+		return c
+	}
+	F := "n6"
+	var rest []string
+	for _, id := range []string{"n1", "n2", "n3", "n4", "n5"} {
+		if id != A {
+			rest = append(rest, id)
+		}
+	}
+	B := rest[int(seed)%len(rest)]
+	var maj []string // the three voters that move on
+	for _, id := range rest {
+		if id != B {
+			maj = append(maj, id)
+		}
+	}
+	c.Apply(A, 0)
+	c.Settle("client")
+	c.Drive(150*time.Millisecond, nil, nil)
+	if c.Leader() != A {
+		c.converge(500 * time.Millisecond)
+		return c
+	}
+	// A, B, F on one side; A's next entries reach B (both) and F (the first only)
+	for _, x := range []string{A, B, F} {
+		for _, y := range maj {
+			c.Net.SetBlocked(x, y, true)
+		}
+	}
+	c.Tr.Emit("part", "", M{"op": "split", "blocked": c.blockedJSON()})
+	base := c.byID[A].Raft.LastIndex()
+	c.Apply(A, 0)
+	c.Settle("client")
+	c.Drive(40*time.Millisecond, func(r *Rpc) bool { return r.Src == A }, func() bool {
+		return c.byID[B].Raft.LastIndex() > base && c.byID[F].Raft.LastIndex() > base
+	})
+	c.Apply(A, 0)
+	c.Settle("client")
+	c.Drive(40*time.Millisecond, func(r *Rpc) bool { return r.Src == A && r.Dst == B }, func() bool {
+		return c.byID[B].Raft.LastIndex() > base+1
+	})
+	okShape := c.byID[B].Raft.LastIndex() == base+2 && c.byID[F].Raft.LastIndex() == base+1
+	c.Crash(A)
+	c.Settle("crash")
+	c.dropPendingFrom(A)
+	c.isolate(B)
+	c.isolate(F)
+	c.dropPendingFrom(B)
+	c.dropPendingFrom(F)
+	if !okShape {
+		c.healAll()
+		c.converge(500 * time.Millisecond)
+		return c
+	}
+	// the majority elects a leader, commits, snapshots and compacts past base+2
+	ok := c.Drive(4*time.Second, nil, func() bool {
+		l := c.Leader()
+		return l != "" && l != A && l != B
+	})
+	if !ok {
+		c.healAll()
+		c.converge(500 * time.Millisecond)
+		return c
+	}
+	L2 := c.Leader()
+	for i := 0; i < 6+int(seed%3); i++ {
+		c.Apply(L2, 0)
+		c.Settle("client")
+		c.Drive(30*time.Millisecond, nil, nil)
+	}
+	for _, id := range maj {
+		c.UserSnapshot(id)
+		c.Settle("client")
+	}
+	c.Drive(200*time.Millisecond, nil, nil)
+	// B comes back: it is caught up by InstallSnapshot and keeps what it holds below the snapshot
+	for _, y := range maj {
+		c.Net.SetBlocked(B, y, false)
+	}
+	c.Tr.Emit("part", "", M{"op": "uncut", "a": B, "blocked": c.blockedJSON()})
+	c.Drive(3*time.Second, nil, func() bool {
+		l := c.Leader()
+		return l != "" && c.byID[B].Raft.AppliedIndex() >= c.byID[l].Raft.CommitIndex() && c.byID[l].Raft.CommitIndex() > base+4
+	})
+	// B takes over
+	if l := c.Leader(); l != "" && l != B {
+		c.Transfer(l, B)
+		c.Settle("client")
+		c.Drive(2*time.Second, nil, func() bool { return c.Leader() == B })
+	}
+	// F comes back and is served from B's log
+	for _, y := range opt.Servers {
+		if y != F && y != A {
+			c.Net.SetBlocked(F, y, false)
+		}
+	}
+	c.Tr.Emit("part", "", M{"op": "uncut", "a": F, "blocked": c.blockedJSON()})
+	c.Drive(1500*time.Millisecond, nil, nil)
+	c.healAll()
+	c.converge(600 * time.Millisecond)
+	return c
+}
